@@ -34,10 +34,11 @@ def pack_ins(evs):
                 b[store] = {"n": 0, "n_live": -1, "n_nested": 0, "ncols": 0, "rows": 0, "sorted": True,
                             "partition": True, "thr_set": False, "it_counts": [], "in_unit": True,
                             "logL_ok": True, "logU_ok": True, "densities_ok": True, "logQ_ok": True,
-                            "logW_ok": True, "digest": 0, "clip_ok": True}
+                            "logW_ok": True, "digest": 0, "clip_ok": True, "strict_ok": True}
             else:
                 b[store].pop("density_error", None)
                 b[store].setdefault("clip_ok", True)
+                b[store].setdefault("strict_ok", True)
         if ev == "start":
             ev_base[e["proc"]] = 0
             st_base[e["proc"]] = 0.0
